@@ -43,6 +43,18 @@ Proof.
   apply firstn_all2. unfold len in *. lia.
 Qed.
 
+Lemma py_slice_len (s : text) a b' : (0 <= a <= b')%Z -> (b' <= len s)%Z -> len (py_slice s a b') = (b' - a)%Z.
+Proof.
+  intros H1 H2. unfold py_slice, norm_idx. replace (a <? 0)%Z with false by lia. replace (b' <? 0)%Z with false by lia.
+  replace (Z.min a (len s)) with a by lia. replace (Z.min b' (len s)) with b' by lia.
+  unfold len in *. rewrite firstn_length, skipn_length. lia.
+Qed.
+Lemma py_slice_to_min (s : text) n : (0 <= n)%Z -> len (py_slice_to s n) = Z.min (len s) n.
+Proof.
+  intro Hn. unfold py_slice_to, py_slice, norm_idx. replace (0 <? 0)%Z with false by lia. replace (n <? 0)%Z with false by lia.
+  replace (Z.min 0 (len s)) with 0%Z by (unfold len; lia). cbn [Z.to_nat skipn]. unfold len. rewrite firstn_length. lia.
+Qed.
+
 Lemma py_slice_cleaned e (s : text) a b' : cleaned e s = true -> cleaned e (py_slice s a b') = true.
 Proof. intro H. unfold py_slice. apply cleaned_firstn, cleaned_skipn. exact H. Qed.
 
@@ -196,6 +208,45 @@ Proof using All.
   - exact H1.
 Qed.
 
+Lemma comps2_get k : get_val k comps2 = py_slice_to (get_val k comps1) (wd k).
+Proof using All.
+  unfold comps2, rnd_comps2. fold comps0. fold comps1. unfold get_val at 2.
+  induction comps1 as [|[k1 v1] l IH].
+  { unfold get_val. cbn [map assoc]. unfold py_slice_to, py_slice. rewrite skipn_nil, firstn_nil. reflexivity. }
+  unfold get_val in *. cbn [map assoc fst snd].
+  destruct (text_eqb k k1) eqn:E; [apply text_eqb_eq in E; subst k1; reflexivity|exact IH].
+Qed.
+
+(* a field that is not bank/branch/account code, has positive width and is served by a non-empty pin, a non-empty
+   default or a draw of the country's BBAN length receives a non-empty value *)
+Lemma comps2_nonempty k :
+  In k components -> text_eqb k k_bank = false -> text_eqb k k_branch = false -> (0 < wd k)%Z ->
+  (forall k' v, In (k', v) pins -> v <> []) -> (forall k' v, In (k', v) (r_defaults r) -> v <> []) ->
+  len (upper e d) = r_bban_length r ->
+  get_val k comps2 <> [].
+Proof using All.
+  intros Hk Hnb Hnbr Hw HPne HDne Hlen.
+  assert (H0 : get_val k comps0 <> []).
+  { unfold comps0, rnd_comps0, fc_ranges. rewrite map_map. cbn [fst snd].
+    rewrite (get_val_map (fun c => match assoc c pins with Some v0 => v0 | None => _ end) k components Hk).
+    destruct (assoc k pins) as [pv|] eqn:Ep.
+    - apply assoc_in in Ep as (k' & _ & Hin). exact (HPne k' pv Hin).
+    - rewrite Hnb. unfold default_for. destruct (assoc k (r_defaults r)) as [dv|] eqn:Edv.
+      + apply assoc_in in Edv as (k' & _ & Hin). exact (HDne k' dv Hin).
+      + pose proof LAY as LAY'. unfold fc_layout_ok in LAY'. repeat (apply andb_true_iff in LAY' as [LAY' ?]).
+        match goal with H : forallb (fun c => range_in _ _) _ = true |- _ => rewrite forallb_forall in H; specialize (H k Hk);
+          apply range_in_spec in H as [R1 R2] end.
+        assert (Erng : fc_rng components r k = position_range r k)
+          by (unfold fc_rng, fc_ranges; rewrite (assoc_map (position_range r) k components Hk); reflexivity).
+        rewrite Erng in R1, R2.
+        intro E. apply (f_equal len) in E. rewrite py_slice_len in E by (rewrite ?Hlen; assumption).
+        unfold wd, range_length, rng in Hw. rewrite Erng in Hw. change (len []) with 0%Z in E. lia. }
+  assert (H1 : get_val k comps1 = get_val k comps0).
+  { unfold comps1, rnd_comps1. cbv zeta. destruct (_ && _); [|reflexivity]. apply get_val_set_other. exact Hnbr. }
+  rewrite comps2_get, H1. intro E. apply (f_equal len) in E. rewrite py_slice_to_min in E by lia.
+  change (len []) with 0%Z in E. destruct (get_val k comps0) as [|c l]; [congruence|]. unfold len in E. cbn [List.length] in E. lia.
+Qed.
+
 Lemma rnd_nosplit : fc_split components r (fc_comps0 e components r comps2) = false.
 Proof using All.
   destruct (fc_split components r (fc_comps0 e components r comps2)) eqn:E; [|reflexivity]. exfalso.
@@ -307,6 +358,31 @@ Proof using WF ZERO.
     apply filter_In in Hen as [Hen _]. exact Hen. }
   exists (rnd_comps2 e components r bank pins d). split; [exact Hfc|].
   exact (rnd_only cc r bank pins d Er LAY HP HB HD (HDRAWS d Hd)).
+Qed.
+
+(* the same, naming the values: the overlay of one of the draws *)
+Theorem random_built_values cc0 reg pins ci bi draws cc b r ps :
+  random_bban e components T find_algo R cc0 reg pins ci bi draws = Ok (cc, b) ->
+  find_row T cc = Some r -> r_positions r = Some ps ->
+  exists d bank, In d draws /\ (forall en, bank = Some en -> In en R) /\
+    from_components e components T find_algo cc (rnd_comps2 e components r bank pins d) = Ok b.
+Proof using WF ZERO.
+  intros H Er Eps.
+  unfold random_bban in H. cbv zeta in H. unfold get_spec in H.
+  set (cc' := match cc0 with [] => nth ci (country_keys R) [] | _ => cc0 end) in *.
+  destruct (find_row T cc') as [r'|] eqn:Er'; [|discriminate]. cbn [bind] in H.
+  assert (Ecc : cc = cc').
+  { destruct (r_positions r'); [destruct (attempts _ _ _ _ _ _ _ _ _ _)|destruct draws]; cbn [bind] in H; congruence. }
+  clearbody cc'. subst cc'. rewrite Er in Er'. inversion Er'; subst r'. clear Er'. rewrite Eps in H.
+  remember (if reg then match country_entries R cc with [] => None | l => nth_error l bi end else None) as bank eqn:Ebank.
+  destruct (attempts e components T find_algo 100 cc r bank pins draws) as [b0|x|x] eqn:E; try discriminate. cbn [bind] in H.
+  inversion H; subst b0. clear H.
+  destruct (attempts_ok _ _ _ _ _ _ _ E) as (d & Hd & Hfc).
+  exists d, bank. split; [exact Hd|]. split; [|exact Hfc].
+  intros en Hen. rewrite Ebank in Hen. destruct reg; [|discriminate].
+  destruct (country_entries R cc) as [|e0 l] eqn:El; [discriminate|].
+  apply nth_error_In in Hen. rewrite <- El in Hen. unfold country_entries, idx_filter in Hen.
+  apply filter_In in Hen as [Hen _]. exact Hen.
 Qed.
 
 (* every value the loop hands to from_components fits its field (for use with totality of from_components) *)
